@@ -57,7 +57,7 @@ ReadCLI == phase = "yaml" /\ phase' = "cli" /\ UNCHANGED <<rq, cursor, messages,
 
 CheckTypes ==
   /\ phase = "cli"
-  /\ IF C.fault = "notypes" \/ C.types = <<>> THEN GFail
+  /\ IF C.fault \in {"notypes", "emptytypes"} \/ C.types = <<>> THEN GFail
      ELSE phase' = "ready" /\ UNCHANGED <<rq, cursor, messages, warned, processing, out, log>>
 
 \* Config.dump: logs the keys of the configuration maps in Go's map iteration order
